@@ -57,6 +57,7 @@ class Interp:
         self.bounds = {}           # uninterpreted symbol / function name -> (lb, ub): must be implied by the path condition
         self.named_consts = {}
         self.frame_env = {}        # fid -> {type parameter: instantiation text}
+        self.pyclosures = {}
         self.clo_env = {}          # closure type -> env of the frame that created it
         self.closure_of_parent = {}
         self.pending_env = None
@@ -920,6 +921,19 @@ class Interp:
                 return Struct(ty + '@@' + parent_fn.name, caps)
         return Struct(ty, caps)
 
+    def pyclosure(self, f):
+        k = len(self.pyclosures)
+        self.pyclosures[k] = f
+        return Struct('{pyclosure}', (k,))
+
+    def method(self, name, selfty=None, nparams=None, impl_ty=None):
+        """the unique crate function called `name` whose receiver (first parameter) has type key `selfty`"""
+        c = [f for f in self.by_last.get(name, []) if f.kind == 'fn' and (selfty is None or self.fninfo(f)['selfty'] == selfty)
+             and (nparams is None or len(f.params) == nparams) and (impl_ty is None or self.fninfo(f)['impl_ty'] == impl_ty)]
+        if len(c) != 1:
+            raise Inconclusive('method lookup %s on %s: %d candidates' % (name, selfty or impl_ty, len(c)))
+        return c[0]
+
     def instantiation(self, fn, callee):
         """type-parameter environment of a generic impl method called through `callee`"""
         ms = re.findall(r'<impl at (\S+?):(\d+):(\d+): \d+:\d+>', fn.name)
@@ -962,6 +976,10 @@ class Interp:
             v = self.deref(st, v)
         if isinstance(v, FnItem):
             self.call(st, v.path, list(args), cont, depth, None)
+            return
+        if isinstance(v, Struct) and v.ty == '{pyclosure}':
+            # user code supplied by the harness (e.g. the body-building closure handed to an edit API)
+            self.pyclosures[v.f[0]](self, st, list(args), cont, depth)
             return
         if not isinstance(v, Struct) or not v.ty.startswith('{closure@'):
             raise Inconclusive('call of non-closure %r' % (v,))
